@@ -217,16 +217,20 @@ theorem rc4Up_eq_rc4Seq (k : Bytes) (cnt i : Nat) (d : Bytes) :
   | succ n ih => simp [rc4Up, rc4Seq, List.range', ih, hrc4, xorKey, xorWith]
 
 include hmd5 hrc4 in
-/-- Algorithm 3 as coded = Algorithm 3 of the standard with the owner password PRESENT
-(the code never takes the "no owner password" branch: an empty owner password is hashed as such) -/
+/-- Algorithm 3 as coded = Algorithm 3 of the standard, including step (a): with no owner password
+(an empty one) the user password is used -/
 theorem computeO_eq_alg3 (a : Alg) (fileId ownerPw userPw : Bytes) (hn : keyBytes a.revision a.length ≤ 16) :
-    a.computeO P ownerPw userPw = .ok (alg3 S (paramsOf a fileId) (some ownerPw) userPw) := by
+    a.computeO P ownerPw userPw =
+      .ok (alg3 S (paramsOf a fileId) (if ownerPw.isEmpty then none else some ownerPw) userPw) := by
   have h50 : MD5_ROUNDS = 50 := by decide
   have h19 : RC4_ROUNDS = 19 := by decide
   unfold Alg.computeO alg3
   have : ¬ keyBytes a.revision a.length > 16 := by omega
-  simp only [this, ↓reduceIte, Option.getD_some]
-  have hk : a.ownerKey P ownerPw = ownerKey S (paramsOf a fileId) ownerPw := by
+  simp only [this, ↓reduceIte]
+  have he : (if ownerPw.isEmpty then none else some ownerPw : Option Bytes).getD userPw = effOwner ownerPw userPw := by
+    unfold effOwner; cases ownerPw.isEmpty <;> simp
+  rw [he]
+  have hk : a.ownerKey P (effOwner ownerPw userPw) = ownerKey S (paramsOf a fileId) (effOwner ownerPw userPw) := by
     simp [Alg.ownerKey, ownerKey, paramsOf, padPw_eq, iter_eq, hmd5, h50]
   rw [hk, rc4Up_eq_rc4Seq S hrc4, h19, padPw_eq, hrc4]
   rfl
@@ -368,5 +372,13 @@ theorem p_conforming_fixed (perms : Nat) (h : perms &&& PERM_ALL = perms) :
 /-- spec: an absent owner password is the user password (Algorithm 3 step a) -/
 theorem alg3_absent_owner (S : SPrims) (q : Params) (userPw : Bytes) :
     alg3 S q none userPw = alg3 S q (some userPw) userPw := rfl
+
+/-- model = spec for the absent owner password (F-C06-e repaired): `compute_hashed_owner_password_r4`
+with an empty owner password computes the standard's O for "no owner password" -/
+theorem computeO_absent_owner (P : Prims) (S : SPrims) (hmd5 : S.md5 = P.md5) (hrc4 : S.rc4 = Crypt.rc4)
+    (a : Alg) (fileId userPw : Bytes) (hn : keyBytes a.revision a.length ≤ 16) :
+    a.computeO P [] userPw = .ok (alg3 S (paramsOf a fileId) none userPw) := by
+  have := computeO_eq_alg3 P S hmd5 hrc4 a fileId [] userPw hn
+  simpa using this
 
 end Lopdf.C06
